@@ -143,15 +143,17 @@ var attrGen = rapid.Custom(func(t *rapid.T) string {
 		k = rapid.SampledFrom([]string{"class", "id", "title", "align", "width", "target", "name", "type", "x"}).Draw(t, "plain")
 		v = rapid.SampledFrom([]string{"a", "1", "x y", "", "<b>", "\">", "'"}).Draw(t, "pv")
 	}
+	// the tokenizer allows white space around '=': a sanitiser that looks for "name=" must too
+	eq := rapid.SampledFrom([]string{"=", "=", "=", " =", "= ", " = ", "\n=", "\t=\t", "\f="}).Draw(t, "eq")
 	switch rapid.IntRange(0, 4).Draw(t, "quote") {
 	case 0:
-		return k + "=" + strings.ReplaceAll(v, " ", "")
+		return k + eq + strings.ReplaceAll(v, " ", "")
 	case 1:
-		return k + "='" + strings.ReplaceAll(v, "'", "") + "'"
+		return k + eq + "'" + strings.ReplaceAll(v, "'", "") + "'"
 	case 2:
 		return k
 	}
-	return k + `="` + strings.ReplaceAll(v, `"`, "&quot;") + `"`
+	return k + eq + `"` + strings.ReplaceAll(v, `"`, "&quot;") + `"`
 })
 
 func nodeGen(depth int) *rapid.Generator[string] {
@@ -236,6 +238,7 @@ var propHTML = hx.Prop[HCase]{
 type SCase struct {
 	Style string `json:"style"`
 	Quote string `json:"quote"`
+	Name  string `json:"name"` // attribute name and '=' as written: "style=", "STYLE =", ...
 }
 
 var propStyle = hx.Prop[SCase]{
@@ -248,11 +251,12 @@ var propStyle = hx.Prop[SCase]{
 		if rapid.IntRange(0, 3).Draw(t, "tail") == 0 {
 			s += rapid.StringOfN(rapid.SampledFrom([]rune(`pos:;{}()'"\/*@! -ition`+"\n")), 0, 12, -1).Draw(t, "tailv")
 		}
-		return SCase{Style: s, Quote: rapid.SampledFrom([]string{`"`, `'`}).Draw(t, "quote")}
+		return SCase{Style: s, Quote: rapid.SampledFrom([]string{`"`, `'`}).Draw(t, "quote"),
+			Name: rapid.SampledFrom([]string{"style=", "style=", "STYLE=", "Style =", "style = ", "style\n=", "sTyLe\t="}).Draw(t, "name")}
 	},
 	Run: func(c SCase) *hx.Outcome {
 		esc := strings.ReplaceAll(strings.ReplaceAll(c.Style, "&", "&amp;"), c.Quote, map[string]string{`"`: "&quot;", `'`: "&#39;"}[c.Quote])
-		in := "<div style=" + c.Quote + esc + c.Quote + ">x</div>"
+		in := "<div " + c.Name + c.Quote + esc + c.Quote + ">x</div>"
 		o := runHTML(HCase{HTML: in})
 		nt := false
 		for _, p := range DeclaredProperties(c.Style) {
